@@ -89,6 +89,40 @@ CLAIMED["C19"] = dict(
          "and determinism of results beyond the functional contracts of C03/C11/C18."),
    design="4/C19", technique="contract-based deductive verification: frame (modifies) obligations at every store and call")
 
+CLAIMED["C05"] = dict(
+   text=("Deductive proof on the real stack code of the referential-integrity core: (G3) at every os.Remove call site on every path - Addition.Close, "
+         "the post-commit deletion loop and every error path of compactRange, compactLocked, Clean, Close and reloadOnce's garbage collection - the removed "
+         "path is this call's own unpublished temp file, or is not named by tables.list (under the lock), or is not named by the list this handle last read or "
+         "wrote (without the lock); (G2) the list is replaced only by a list whose every name is a table already in place, with distinct names none of which "
+         "was ever replaced before; (G5) a table file appears only by renaming this handle's own closed temp file; three step lemmas prove that an action "
+         "meeting its guard keeps 'every listed table is in place' (I1), so I1 holds between any two filesystem actions of the handle. NewMerged, called by "
+         "every reload, rejects a list whose update-index ranges are not strictly increasing or whose hash ids differ."),
+   note=TRUST + FS + (" Rely conditions on other handles (they keep listed tables in place, never re-list a replaced name, keep names distinct) are assumed at every "
+         "filesystem call and guaranteed by the same obligations on this code; the composition over handles is the argument of DESIGN.md 3.2. Table names are "
+         "assumed unique (32 random bits, formatName). Not decided: that the ranges of the tables an Addition commits are increasing (seeded mutant C05-B is not "
+         "caught: the writer's update-index limits are not modelled), and that a listed file is a complete valid table (C14). reload's retry loop is trusted; "
+         "its precondition for reuseOpen=false is checked at every caller."),
+   design="3.1-3.2, 4/C05", technique="contract-based deductive verification: ghost directory state, guard obligations G2/G3/G5 at every filesystem call site, step lemmas for the invariant")
+CLAIMED["C06"] = dict(
+   text=("Deductive proof of the ordering facts crash-safety rests on, as obligations on the real code: tables.list changes only by one atomic rename, whose "
+         "guard G2 demands that the new list is the old one plus this transaction's tables (Add/Commit) or with one contiguous range replaced by at most one "
+         "table (compaction) and that every table it names is already in place; no listed table is unlinked before that rename (G3 is evaluated against the list "
+         "as it is at each unlink); temp files are never listed. The step lemmas give the invariant at every boundary between two filesystem actions, i.e. at every "
+         "crash point, so after a crash the list is the previous or the next committed list and names only existing tables."),
+   note=TRUST + FS + (" A crash is modelled as stopping between two filesystem actions (process crash, no power loss). Not decided by contracts: that the *contents* seen after "
+         "reopening equal the contents before (needs C01/C07), leftover lock and temp files after a crash (C16 covers normal returns only), and the claim about a second "
+         "process continuing after the crash beyond the rely conditions."),
+   design="3.2, 4/C06", technique="contract-based deductive verification: commit-order guards at every filesystem call site, step lemmas (invariant at every crash point)")
+CLAIMED["C10"] = dict(
+   text=("Deductive proof on the real reloadOnce: on success the handle's tables are exactly the names of the list version that was just read, in order (no table "
+         "skipped, none added); on failure the view is left as it was; in both cases every reader in the view is open (a ghost records Reader.Close) - readers "
+         "taken over from the old view are never closed, only readers opened by the failing call are; the map of reusable readers is proved consistent (filed under "
+         "their own names). NewStack returns a handle satisfying the stack invariant; every operation that reloads (Add, Commit, compactRange, Clean) keeps "
+         "'all readers open'. reload(false) is proved to be called only when every table of the old view has left the list for good."),
+   note=TRUST + FS + (" reload's retry loop (clock, reflect.DeepEqual, rebuilding the merged view) is trusted, and so is that readers keep deleted files readable (POSIX). "
+         "Not decided: that reads through the view return the records of that version (C01/C03), behaviour under real concurrency beyond the rely conditions."),
+   design="4/C10", technique="contract-based deductive verification: ghost reader-closed state, snapshot postcondition of reloadOnce, map invariants")
+
 NOT_APPLICABLE = {
  "C15": "relational property of two programs in two languages; no deductive verifier for C is installed and rtv reads Go SSA only (DESIGN.md section 4/C15)",
 }
